@@ -400,9 +400,8 @@ func (a *An) c15Layout() {
 	// public helper
 	if fn := a.MustFn("ExtractInstanceTags"); fn != nil {
 		nmsg, nfrag := 0, 0
-		for _, b := range fn.Blocks {
-			ret, ok := b.Instrs[len(b.Instrs)-1].(*ssa.Return)
-			if !ok || a.C.Term(ret.Results[2]) != "true" {
+		for _, ret := range a.returnsDeep(fn, 0) {
+			if len(ret.Results) != 3 || a.C.Term(ret.Results[2]) != "true" {
 				continue
 			}
 			k1, o1, ok1 := a.C.ReadAt(ret.Results[0])
@@ -466,4 +465,35 @@ func (a *An) c15Layout() {
 		}
 	}
 	R.Floor(rule, 9)
+}
+
+// returnsDeep: the returns of fn, where a return that merely hands on all results of one call of another function of
+// the two packages (return g(x)) is replaced by the returns of that function (two levels at most).
+func (a *An) returnsDeep(fn *ssa.Function, depth int) []*ssa.Return {
+	var out []*ssa.Return
+	for _, r := range a.returnsOf(fn) {
+		var call *ssa.Call
+		deleg := len(r.Results) > 1 && depth < 2
+		for i, v := range r.Results {
+			ex, ok := v.(*ssa.Extract)
+			if !ok || ex.Index != i {
+				deleg = false
+				break
+			}
+			c, isC := ex.Tuple.(*ssa.Call)
+			if !isC || (call != nil && c != call) {
+				deleg = false
+				break
+			}
+			call = c
+		}
+		if deleg && call != nil {
+			if g := call.Call.StaticCallee(); g != nil && a.C.IsLib(g) && g.Blocks != nil {
+				out = append(out, a.returnsDeep(g, depth+1)...)
+				continue
+			}
+		}
+		out = append(out, r)
+	}
+	return out
 }
